@@ -102,6 +102,13 @@ type frame struct {
 	afterLp  map[*ssa.BasicBlock]bool
 	isEntry  bool
 	ev       *Eval
+	defers   []deferRec
+}
+
+type deferRec struct {
+	instr *ssa.Defer
+	fn    AV
+	args  []AV
 }
 
 type retRec struct {
@@ -818,16 +825,43 @@ func (e *Eval) instr(fr *frame, in ssa.Instruction, st State) {
 		}
 		fr.env[x] = e.topOf(x.Type(), "type assertion")
 	case *ssa.Defer:
+		var args []AV
 		for _, a := range x.Call.Args {
-			e.escape(fr, st, e.val(fr, a), "deferred call")
+			args = append(args, e.val(fr, a))
 		}
-		if fv, ok := e.val(fr, x.Call.Value).(FuncV); ok {
-			for _, b := range fv.Bindings {
+		fr.defers = append(fr.defers, deferRec{instr: x, fn: e.val(fr, x.Call.Value), args: args})
+		e.event("", Discharged, x, "defer")
+	case *ssa.RunDefers:
+		// deferred calls run here, last in first out; closures of the module are evaluated,
+		// anything else makes what it was given unknown
+		for i := len(fr.defers) - 1; i >= 0; i-- {
+			d := fr.defers[i]
+			cc := d.instr.Call
+			var callee *ssa.Function
+			var bindings []AV
+			if fv, ok := d.fn.(FuncV); ok {
+				callee, bindings = fv.Fn, fv.Bindings
+			} else if sc := cc.StaticCallee(); sc != nil {
+				callee = sc
+			}
+			inMod := callee != nil && len(callee.Blocks) > 0 && (callee.Pkg != nil && e.P.InModule(callee.Pkg) || callee.Parent() != nil && callee.Parent().Pkg != nil && e.P.InModule(callee.Parent().Pkg))
+			if inMod && !cc.IsInvoke() {
+				_, out := e.evalFunc(callee, d.args, bindings, st, fr.depth+1, false)
+				for k := range st {
+					delete(st, k)
+				}
+				for k, v := range out {
+					st[k] = v
+				}
+				continue
+			}
+			for _, a := range d.args {
+				e.escape(fr, st, a, "deferred call")
+			}
+			for _, b := range bindings {
 				e.escape(fr, st, b, "deferred closure")
 			}
 		}
-		e.event("", Discharged, x, "defer")
-	case *ssa.RunDefers:
 	case *ssa.Go:
 		e.event("E2", Violated, x, "go statement")
 	case *ssa.Send, *ssa.Select:
